@@ -24,6 +24,8 @@ MUTANTS = [
     # split: the children fill a batch, the parent (whose Commit the input sees) sits in the next one
     ("M_SeqCommit", dict(core.SPLIT, MaxId="22")),
     ("M_TimerFlushesAny", dict(core.SPLIT, MaxId="22")),
+    # a selective join-like action: an event its selector does not match must still go through it while it holds a run
+    ("M_BusyTakesAll", {"Classes": '{"H", "N", "C"}', "Strs": '{"a"}', "_cfg": "Pipeline_props.cfg"}),
 ]
 
 
@@ -38,6 +40,8 @@ def run(ctx, pid=PID, families=(("commit", 120, 600), ("retry", 60, 300)), mutan
                       overrides={"MaxId": "4"} if thorough else None, name="Pipeline/base")
       ctx.tlc_expect_ok("Pipeline", "Pipeline_base.cfg", timeout=1500, deadlock=False,
                       overrides={"Classes": '{"P", "H", "C"}', "Strs": '{"a"}', "MaxId": "4" if thorough else "3"}, name="Pipeline/hold")
+      ctx.tlc_expect_ok("Pipeline", "Pipeline_base.cfg", timeout=1500, deadlock=False,
+                      overrides={"Classes": '{"N", "H", "C", "P"}', "Strs": '{"a"}', "MaxId": "4" if thorough else "3"}, name="Pipeline/hold-selective")
       ctx.tlc_expect_ok("Pipeline", "Pipeline_res.cfg", timeout=1500, deadlock=False,
                       overrides={"HasDQ": "TRUE", "MaxFails": "2", "Classes": '{"P"}', "Strs": '{"a"}',
                                  "MaxId": "4" if thorough else "3"}, name="Pipeline/dq-residual")
@@ -61,13 +65,15 @@ def run(ctx, pid=PID, families=(("commit", 120, 600), ("retry", 60, 300)), mutan
                               {"Capacity": 4, "NWorkers": 2, "BatchCount": 1, "Retry": 0, "HasDQ": True}))
     run_no += 1
     for sw, ov in mutants:
-        lines, steps, violated = core.mutant_schedule(ctx, sw, ov)
+        ov = dict(ov)
+        cfg = ov.pop("_cfg", "Pipeline_base.cfg")
+        lines, steps, violated = core.mutant_schedule(ctx, sw, ov, cfg=cfg)
         scen.append(core.scripted(run_no, "mutant-%s" % sw, lines, steps, core.consts_of(ov)))
         groups.append((core.consts_of(ov), [run_no]))
         ctx.sample({"schedule_from_spec_mutant": sw, "violates_in_mutant_spec": violated, "lines": lines, "steps": steps})
         run_no += 1
     for ov in ({}, {"BatchCount": "2"}, {"HasDQ": "TRUE", "MaxFails": "2", "Classes": '{"P"}'},
-               {"Classes": '{"P", "H", "C"}', "Strs": '{"a"}', "MaxId": "4"},
+               {"Classes": '{"P", "H", "C"}', "Strs": '{"a"}', "MaxId": "4"}, {"Classes": '{"N", "H", "C"}', "Strs": '{"a"}', "MaxId": "4"},
                {"Capacity": "1", "Classes": '{"P", "D", "R"}'}, dict(core.SPLIT), dict(core.SPLIT, BatchCount="1", Classes='{"P", "S", "H"}')):
         g = []
         for lines, steps in core.simulated_schedules(ctx, 60 if thorough else 12, ov):
